@@ -143,7 +143,9 @@ func (o *Options) populateResolver(c *cli.Context) {
 
 func GetTimeFromString(now time.Time, format string, date string) (time.Time, error) {
 	if date == "today" {
-		return now.Local(), nil
+		// now is already in the location it was given in (local for the wall clock,
+		// UTC for --today and the configuration file, like every parsed date)
+		return now, nil
 	}
 	if date == "yesterday" {
 		return now.AddDate(0, 0, -1), nil
